@@ -41,6 +41,7 @@ class FitWorld:
         self.events = 0
         # optimizer / gradient ghosts
         self.param_version = 0
+        self.batch_token = None          # no batch yet: gradients of "this batch" do not exist
         self.batch_log = []          # per open batch: sequence of ghost actions
         self.steps_this_epoch = 0
         self.sched_steps_this_epoch = 0
@@ -381,6 +382,17 @@ def make_sandbox(vc, w, fit_fn, cls):
         w.steps_this_epoch = j
         return {}
     specs = {0: A.LoopSpec(inv_epochs, None, havoc_epochs, "epoch loop"), 1: A.LoopSpec(inv_batches, None, havoc_batches, "batch loop")}
+    # the contracts are bound to the loops by what they range over: the epochs starting_epoch..epochs, and the batches that
+    # _shuffle_data handed out (enumerated or not) - not by their position in the source
+
+    def is_epoch_range(it, env):
+        return isinstance(it, A.SymRange) and isinstance(it.step, int) and it.step == 1 and vc.valid(it.lo == w.starting_epoch) and vc.valid(it.hi == w.epochs + 1)
+
+    def is_batch_iterator(it, env):
+        inner = it.inner if isinstance(it, A.SymEnumerate) else it
+        return isinstance(inner, A.GhostSeq) and inner.name == "batches"
+    specs[0].match = is_epoch_range
+    specs[1].match = is_batch_iterator
 
     class _TorchProxy:
         Tensor = torch.Tensor
